@@ -744,6 +744,35 @@ func (rc *runCtx) explore(sel []*Harness) map[string]*HResult {
 		q.push(task{h: h})
 	}
 	var wg sync.WaitGroup
+	stopProgress := make(chan struct{})
+	go func() {
+		tick := time.NewTicker(20 * time.Second)
+		defer tick.Stop()
+		for {
+			select {
+			case <-stopProgress:
+				return
+			case <-tick.C:
+				q.mu.Lock()
+				nq, np := len(q.tasks), q.pending
+				cnt := map[string]int{}
+				for _, t := range q.tasks {
+					cnt[t.h.ID]++
+				}
+				q.mu.Unlock()
+				var sb strings.Builder
+				for _, h := range sel {
+					r := results[h.ID]
+					r.mu.Lock()
+					if cnt[h.ID] > 0 || r.Paths == 0 {
+						fmt.Fprintf(&sb, " %s:%d/%dq", strings.TrimPrefix(h.ID, "H"), r.Paths, cnt[h.ID])
+					}
+					r.mu.Unlock()
+				}
+				fmt.Fprintf(os.Stderr, "[progress] queued=%d pending=%d%s\n", nq, np, sb.String())
+			}
+		}
+	}()
 	for w := 0; w < *workers; w++ {
 		wg.Add(1)
 		go func(w int) {
@@ -832,6 +861,7 @@ func (rc *runCtx) explore(sel []*Harness) map[string]*HResult {
 		}(w)
 	}
 	wg.Wait()
+	close(stopProgress)
 
 	return results
 }
